@@ -14,3 +14,7 @@ import rules_cpp  # noqa
 prop("C07", ["T-CPP-FSM", "T-CPP-GUARD", "T-CPP-EVAL"])
 prop("C08", ["T-CPP-REGEX", "T-CPP-PARALLEL", "T-CPP-D"])
 prop("C06", ["T-LINEMAP", "T-ERR-SOURCE", "T-LOC-SIBLINGS"])
+import rules_opt  # noqa
+prop("C02", ["T-OPT-PROT", "T-OPT-KILL", "T-OPT-BARRIER", "T-INLINE-COPY", "T-OPT-SIZE"])
+prop("C14", ["T-INLINE-COPY", "T-INLINE-LABELS"])
+prop("C18", ["T-CSLEEP", "T-DUMMY-ZP", "T-PROTECT-REGION", "T-OPT-PROT", "T-OPT-BARRIER"])
